@@ -1,3 +1,4 @@
+mod c03;
 mod c04;
 mod c05;
 mod c08;
@@ -23,6 +24,7 @@ fn main() {
     let seed: u64 = std::env::var("VERIF_SEED").ok().and_then(|s| s.parse().ok()).unwrap_or(0);
     let cmd = args.get(1).map(|s| s.as_str()).unwrap_or("");
     let sink = match cmd {
+        "c03" => c03::run(&tier, seed),
         "c04" => c04::run(&tier, seed),
         "c05" => c05::run(&tier, seed),
         "c08" => c08::run(&tier, seed),
